@@ -1237,6 +1237,16 @@ func ruleC39rows(c *Ctx, r *Report) {
 				}
 			}
 		}
+		eofSeen := false
+		for _, ei := range callsIn(fn, func(cc *ssa.CallCommon) bool { return callsFunc(cc, isEOF) }) {
+			if ec := ei.(*ssa.Call); len(ec.Call.Args) >= 2 && a.has(ec.Call.Args[1]) {
+				eofSeen = true
+			}
+		}
+		if !eofSeen {
+			r.undecided(rule, name, fmt.Sprintf("row-packet#%d:end-of-rows-idiom", n), c.Pos(call.Pos()), "the end of the row stream is not recognised through dc.isEOFPacket(data) (length-checked EOF test): the rule cannot tell the EOF exit from a dropped row; a 0xfe first byte alone is also the length prefix of a >=16 MiB first column")
+			continue
+		}
 		again := false
 		exits := searchExits(fn, call, nil, SearchOpts{
 			Stop: func(in ssa.Instruction) bool {
